@@ -1,0 +1,127 @@
+//go:build verif
+
+package fox
+
+import (
+	"strconv"
+	"strings"
+	"unsafe"
+)
+
+// This file only exists when the package is built with the `verif` tag. It exports read-only inspection helpers
+// used by the external verification harness and changes no behaviour of the router.
+
+// VerifDumpRouter returns a canonical dump of the currently published routing tree.
+func VerifDumpRouter(r *Router) string {
+	return verifDumpRoots(r.getRoot().root)
+}
+
+// VerifDumpTxn returns a canonical dump of the routing tree held by the transaction (empty if settled).
+func VerifDumpTxn(txn *Txn) string {
+	if txn.rootTxn == nil {
+		return ""
+	}
+	return verifDumpRoots(txn.rootTxn.root)
+}
+
+// VerifDumpIter returns a canonical dump of the routing tree captured by the iterator.
+func VerifDumpIter(it Iter) string {
+	return verifDumpRoots(it.root)
+}
+
+func verifDumpRoots(rs roots) string {
+	var sb strings.Builder
+	for _, n := range rs {
+		verifDumpNode(&sb, n)
+		sb.WriteByte(';')
+	}
+	return sb.String()
+}
+
+// (key-hex leaf-pattern-hex|- child...)
+func verifDumpNode(sb *strings.Builder, n *node) {
+	sb.WriteByte('(')
+	sb.WriteString(verifHex(n.key))
+	sb.WriteByte(' ')
+	if n.route != nil {
+		sb.WriteString(verifHex(n.route.pattern))
+	} else {
+		sb.WriteByte('-')
+	}
+	for _, c := range n.children {
+		sb.WriteByte(' ')
+		verifDumpNode(sb, c)
+	}
+	sb.WriteByte(')')
+}
+
+func verifHex(s string) string {
+	if s == "" {
+		return "_"
+	}
+	const hexd = "0123456789abcdef"
+	b := make([]byte, 0, 2*len(s))
+	for i := 0; i < len(s); i++ {
+		b = append(b, hexd[s[i]>>4], hexd[s[i]&15])
+	}
+	return string(b)
+}
+
+// VerifTreeStats returns the bookkeeping carried by the published tree: size, maxParams, depth.
+func VerifTreeStats(r *Router) (size int, maxParams, depth uint32) {
+	t := r.getRoot()
+	return t.size, t.maxParams, t.depth
+}
+
+// VerifTreeID identifies the published tree version (pointer identity, never dereferenced by the caller).
+func VerifTreeID(r *Router) uintptr {
+	return uintptr(unsafe.Pointer(r.getRoot()))
+}
+
+// VerifCtxID identifies a pooled context (pointer identity), 0 if c is not a router context.
+func VerifCtxID(c Context) uintptr {
+	if cc, ok := c.(*cTx); ok {
+		return uintptr(unsafe.Pointer(cc))
+	}
+	return 0
+}
+
+// VerifCtxCaps returns the capacities of the pooled buffers of a router context.
+func VerifCtxCaps(c Context) (params, tsrParams, skipped int) {
+	cc, ok := c.(*cTx)
+	if !ok || cc.params == nil || cc.tsrParams == nil || cc.skipNds == nil {
+		return -1, -1, -1
+	}
+	return cap(*cc.params), cap(*cc.tsrParams), cap(*cc.skipNds)
+}
+
+// VerifCtxState renders the raw (possibly stale) fields of a router context, for the reset checks.
+func VerifCtxState(c Context) string {
+	cc, ok := c.(*cTx)
+	if !ok {
+		return ""
+	}
+	var sb strings.Builder
+	sb.WriteString("tsr=")
+	sb.WriteString(strconv.FormatBool(cc.tsr))
+	sb.WriteString(" scope=")
+	sb.WriteString(strconv.Itoa(int(cc.scope)))
+	sb.WriteString(" route=")
+	if cc.route != nil {
+		sb.WriteString(cc.route.pattern)
+	} else {
+		sb.WriteString("-")
+	}
+	sb.WriteString(" cachedQuery=")
+	sb.WriteString(strconv.FormatBool(cc.cachedQuery != nil))
+	return sb.String()
+}
+
+// VerifWriterLocked reports whether the writer mutex is currently held (TryLock probe, released at once).
+func VerifWriterLocked(r *Router) bool {
+	if r.mu.TryLock() {
+		r.mu.Unlock()
+		return false
+	}
+	return true
+}
